@@ -229,3 +229,35 @@ pub fn err_code(e: &lexpr::parse::Error) -> String {
     let loc = e.location().map(|l| (l.line(), l.column())).unwrap_or((0, 0));
     format!("err {} {} {}", code, loc.0, loc.1)
 }
+
+/// Last violation of the documented conversion to `std::io::Error` (C19), drained by the oracle.
+pub static KIND_FAIL: std::sync::Mutex<Option<String>> = std::sync::Mutex::new(None);
+
+/// `err_code`, and on the way check the conversion clause of C19 on this very error:
+/// Syntax -> InvalidData, Eof -> UnexpectedEof, Io -> the original error (kind and message).
+pub fn err_item(e: lexpr::parse::Error) -> String {
+    use lexpr::parse::error::Category;
+    let code = err_code(&e);
+    let cat = e.classify();
+    let src = std::error::Error::source(&e).map(|s| s.to_string());
+    let conv = std::panic::catch_unwind(std::panic::AssertUnwindSafe(move || std::io::Error::from(e)));
+    let bad = match conv {
+        Err(_) => Some("the conversion to io::Error panicked".to_string()),
+        Ok(ioe) => {
+            let want = match cat {
+                Category::Syntax => Some(std::io::ErrorKind::InvalidData),
+                Category::Eof => Some(std::io::ErrorKind::UnexpectedEof),
+                Category::Io => None,
+            };
+            match want {
+                Some(k) if ioe.kind() != k => Some(format!("category {:?} converts to io::ErrorKind::{:?}", cat, ioe.kind())),
+                None if src.as_deref() != Some(&ioe.to_string()[..]) => Some(format!("I/O error {:?} converts to a different error {:?}", src, ioe.to_string())),
+                _ => None,
+            }
+        }
+    };
+    if let Some(b) = bad {
+        *KIND_FAIL.lock().unwrap() = Some(format!("{} ({})", b, code));
+    }
+    code
+}
